@@ -5,7 +5,7 @@
 set -u
 REPO="$1"; OUT="$2"
 DRV=/verif/driver/target/release/oq3facts
-if [ ! -x "$DRV" ]; then
+if [ ! -x "$DRV" ] || [ /verif/driver/src/main.rs -nt "$DRV" ]; then
   (cd /verif/driver && CARGO_NET_OFFLINE=true cargo build --release --offline >/dev/null 2>&1) || { echo "driver build failed" >&2; exit 3; }
 fi
 mkdir -p "$OUT"
